@@ -438,7 +438,7 @@ Proof. exact parse_runes_refs_ok. Qed.
 Print Assumptions C07_parser_block_types_nonempty.
 
 (* walker_returns for the instance: on every syntax tree of the parser the walker returns a file or positioned
-   errors, or says "outside the model" (maps of containers, non-ASCII map keys, > 300-rune float literals, a oneof
+   errors, or says "outside the model" (maps of containers, non-ASCII map keys, a oneof
    with two members set: model/CmpbWalk.v header) *)
 Theorem C07_walker_returns : forall mkR body, body_refs_ok body = true ->
   (exists w, j5s_walk_gen mkR body = Ok w) \/ j5s_walk_gen mkR body = Err E_UNMODELLED.
@@ -486,6 +486,21 @@ Example C07_example_split_nesting :
   schema_split_terminal (match find_schema "j5.schema.v1.Ref" with Some d => d | None => mkSD "" false [] end) = true /\
   exists ss, bs_split (cont_spec (CSchema "j5.schema.v1.Ref")) = Some ss /\ split_targets ss = [["schema"]; ["package"]]%string.
 Proof. exact split_nesting_example. Qed.
+
+(* a third class is MODELLED: float literals.  conv_scalar models strconv.ParseFloat(lit, 64) on every INT /
+   DECIMAL token (ASCII digits and the dot only - the lexer's digits are Unicode digits; range error iff the
+   integer part is >= 2^1024 - 2^970, where the correctly rounded value becomes +Inf), so it never answers
+   "outside the model"; every float property of the translated schema is float64 (no_float32_props, computed). *)
+Theorem C07_walker_float_literals_modelled : forall k a, conv_scalar k a <> ConvUnmod.
+Proof. exact conv_scalar_modelled. Qed.
+Print Assumptions C07_walker_float_literals_modelled.
+
+Example C07_example_float_literals :
+  conv_scalar KFloat (ATok (mkTok INT (50%N :: repeat 48%N 308) pos0 pos0) span0) = ConvErr /\
+  conv_scalar KFloat (ATok (mkTok INT (49%N :: repeat 48%N 308) pos0 pos0) span0) = ConvOk (2%N, 49%N :: repeat 48%N 308) /\
+  conv_scalar KFloat (ATok (mkTok DECIMAL [49; 46; 1635]%N pos0 pos0) span0) = ConvErr /\
+  conv_scalar KFloat (ATok (mkTok DECIMAL [49; 46]%N pos0 pos0) span0) = ConvOk (2%N, [49; 46]%N).
+Proof. exact float_literal_example. Qed.
 
 (* the protovalidate rules of the walker model were written from exactly the buf.validate annotations the two .proto
    files carry today, and each annotated field has a model rule or is one of the two stated exemptions *)
